@@ -453,6 +453,9 @@ def target_parallel_goto():
 
         def closure(interp, obj, item):
             called.append(item)
+            if item not in clos:
+                c.oblige("closure-is-taken-of-the-advanced-item", False, detail=repr(item)[:200])
+                return frozenset()
             return clos[item]
         me = GObj("grammar", methods={"_closure_of_item": closure}, attrs={"_item_cache": item_cache, "_closure_of_item_cache": memo})
         c.covered = True
